@@ -3,6 +3,7 @@ package main
 import (
 	"encoding/json"
 	"fmt"
+	"hash/fnv"
 	"math/rand"
 	"os"
 	h "verifharness/hlib"
@@ -10,7 +11,21 @@ import (
 
 func main() { h.Main("C02", runC02) }
 
+func caseKey(x any) string {
+	b, _ := json.Marshal(x)
+	hh := fnv.New64a()
+	hh.Write(b)
+	return fmt.Sprintf("%x", hh.Sum64())
+}
+
 func runC02(c *h.Ctx) {
+	c.Rule("witness: the recorded defect witnesses, replayed. oracle: sequences of 1-4 values over the whole type system " +
+		"(depth ≤ 3; 40% from the plain fragment of the Lean theorem, 30% with named/error types steered away from the recorded defects, " +
+		"30% unrestricted incl. hostile names and boundary primitives: -0, ±Inf, NaN, float16/32, int/uint extremes, time/duration extremes, IPv6, v4-mapped, " +
+		"empty containers, nulls of every type, partially populated unions, one name bound to several types) × mode {FormatValue, same context, FormatRecord, zsonio.Writer, Format without reset} " +
+		"× pretty {0,2,4} × persist regexp; a case is distinct by (mode, settings, types, values); failing cases are shrunk structurally and classified. " +
+		"corr: the same cases, real AST vs model AST, real analysis vs model analysis, model round trip vs real round trip. guarded: plain-fragment values whose Lean guard (evaluated by the driver) holds must round-trip. " +
+		"quote: strings/names/type names incl. every escape class, keywords, digits-first, non-ASCII. type: FormatType/ParseType and the type AST. json: grammar-directed JSON documents (number spellings, escapes, surrogates, duplicate keys, mixed arrays) through both readers and the model.")
 	if c.Replay != nil {
 		replayC02(c)
 		return
@@ -21,6 +36,18 @@ func runC02(c *h.Ctx) {
 	if c.Want("witness") {
 		witnessRT(c)
 	}
+	if c.Want("guarded") {
+		guardedRT(c)
+	}
+	if c.Want("quote") {
+		quoteCheck(c)
+	}
+	if c.Want("type") {
+		typeCheckRT(c)
+	}
+	if c.Want("json") {
+		jsonCheck(c)
+	}
 	if c.Want("corr") {
 		corrRT(c)
 	}
@@ -30,11 +57,11 @@ func runC02(c *h.Ctx) {
 }
 
 func corrRT(c *h.Ctx) {
-	n := c.N(1500, 30000)
+	n := c.N(1500, 15000)
 	for i := 0; i < n; i++ {
 		g := &gen{r: c.Rng, noHostle: i%2 == 0}
 		cs := genRTCase(c, g)
-		c.Eval("")
+		c.Eval("corr" + caseKey(cs))
 		c.Stat("corr:mode:" + cs.Mode)
 		corrCase(c, cs)
 	}
@@ -43,6 +70,11 @@ func corrRT(c *h.Ctx) {
 type replayObj struct {
 	Check string  `json:"check"`
 	RT    *rtCase `json:"rt,omitempty"`
+	Kind  string  `json:"kind,omitempty"`
+	S     string  `json:"s,omitempty"`
+	T     *TSpec  `json:"t,omitempty"`
+	Doc   *jdoc   `json:"doc,omitempty"`
+	Text  string  `json:"text,omitempty"`
 }
 
 func replayC02(c *h.Ctx) { replayOne(c, c.Replay) }
@@ -58,6 +90,12 @@ func replayOne(c *h.Ctx, raw json.RawMessage) {
 		checkRT(c, ro.RT, false)
 	case "corr":
 		corrCase(c, ro.RT)
+	case "quote":
+		replayQuote(c, ro.Kind, ro.S)
+	case "type":
+		typeCase(c, c.Model(), ro.T, true)
+	case "json":
+		jsonCase(c, c.Model(), ro.Doc, ro.Text)
 	}
 }
 
@@ -85,11 +123,11 @@ func knownTrigger(cs *rtCase) bool {
 	}
 	f := caseFeatures(cs)
 	return f.bareEmpty || f.namedEnum || f.namedOverSameName || f.namedUnionContainer || f.sameNameTwoTypes ||
-		f.namedInsideContainer || f.unionField || f.namedUnionMember
+		f.namedInsideContainer || f.unionField || f.namedUnionMember || f.typeValueRebinds
 }
 
 func oracleRT(c *h.Ctx) {
-	n := c.N(2000, 60000)
+	n := c.N(2000, 30000)
 	for i := 0; i < n; i++ {
 		var cs *rtCase
 		switch i % 10 {
@@ -119,8 +157,11 @@ func oracleRT(c *h.Ctx) {
 
 func checkRT(c *h.Ctx, cs *rtCase, shrink bool) {
 	res := runRT(cs)
-	c.Eval("")
+	c.Eval(caseKey(cs))
 	c.Stat("rt:mode:" + cs.Mode)
+	if c.Rng.Intn(400) == 0 {
+		c.Sample(map[string]any{"check": "oracle", "case": cs, "ok": res.ok, "text": clip(res.text, 200)})
+	}
 	if res.ok {
 		if res.class != "" {
 			c.Stat("rt:skipped:" + res.class)
